@@ -69,6 +69,17 @@ def evaluate(case):
     if case["omitted"]:
         kw["OmittedXrangeCorrection"] = True
     fails = []
+    # a grid of whole numbers held in an integer array, with window limits between the grid points: the window is what was asked for
+    if len(x) >= 5:
+        xi = np.arange(len(x), dtype=np.int64)
+        loi, hii = 1.5, len(x) - 2.5
+        with np.errstate(all="ignore"):
+            wi = tr.fourier_transform(xi, y, xo, xmin=loi, xmax=hii, dy_in=dy, **kw)
+            wf = tr.fourier_transform(xi.astype(float), y, xo, xmin=loi, xmax=hii, dy_in=dy, **kw)
+        if not same(wi, wf):
+            fails.append(f"fourier_transform on the integer-typed grid 0..{len(x) - 1} with the window [{loi}, {hii}] differs from the same grid as floats "
+                         "(the window limits were not applied as given)")
+            return fails
     # the arrays handed in are the caller's: a transform (window covering everything, Lorch on) leaves them as they were
     snap13 = [a.copy() for a in (x, y) ] + [None if dy is None else dy.copy()]
     with np.errstate(all="ignore"):
